@@ -247,6 +247,9 @@ var c18Tags = []c18Tag{
 	{"omitempty", func(string) string { return `json:"f,omitempty"` }, false},
 	{"omitempty-unnamed", func(string) string { return `json:",omitempty"` }, false},
 	{"string-opt", func(string) string { return `json:"f,string"` }, false},
+	{"string-opt-omitempty", func(string) string { return `json:"f,string,omitempty"` }, false},
+	{"omitempty-string-opt", func(string) string { return `json:"f,omitempty,string"` }, false},
+	{"unnamed-string-opt", func(string) string { return `json:",string"` }, false},
 	{"dash", func(string) string { return `json:"-"` }, false},
 	{"dash-comma", func(string) string { return `json:"-,"` }, false},
 	{"name-slash", func(string) string { return `json:"a/b"` }, false},
